@@ -172,8 +172,12 @@ def judgeFailingSink (closed : Bool) : String :=
   if !closed then "fail:close:sink not closed exactly once after the last write (failing sink)" else "ok"
 
 /-- the real engine: `run` = what Engine.Run returned; judged at Run's return when nil, after Wait otherwise -/
-def judgeEngine (kind : Pandora.Model.AggQueue.Kind) (run : String) (aggret : Bool) (cancelled : Bool) (o : LateObs) : String :=
+def judgeEngine (kind : Pandora.Model.AggQueue.Kind) (run : String) (aggret : Bool) (cancelled : Bool) (pools : Nat)
+    (o : LateObs) : String :=
   if run == "other" then "fail:engine:Engine.Run returned an unexpected error"
+  -- one pool's aggregator ended with its drop count and the engine passed that on as the run's error: Engine.Run
+  -- then cancels the OTHER pools at an instant the harness does not know
+  else if run == "dropped" && pools > 1 then "skip:inconclusive"
   else if run == "nil" && cancelled && o.pre < o.reports then "skip:inconclusive"   -- cancel raced with the natural end
   else if !aggret then "fail:early-return:the engine finished before the aggregator's Run returned"
   else judgeLate kind o
@@ -215,12 +219,20 @@ structure ProcObs where
   lines : Nat
   bad : Nat
   repro : Nat           -- how many consecutive runs of this case showed the same failure (0 = first run fine)
+  timedOut : Bool       -- the process reported "timeout exceeded": it left through the interrupt timeout, without the final flush
+  servedExit : Nat      -- requests the target had completely answered ≥ 500 ms before the process was gone
 
 def judgeProc (o : ProcObs) : String :=
   if o.bad != 0 then s!"fail:malformed:{o.bad} lines of the result file do not decode"
   else if o.lines < o.servedBefore then
     if o.repro ≥ 3 then
       s!"fail:signal-loss:{o.servedBefore} requests were answered before the signal, result file has {o.lines} lines (exit {o.exit})"
+    else "skip:inconclusive"
+  else if o.timedOut && o.lines < o.servedExit then
+    -- the target answered every request at once, yet the process needed the whole interrupt timeout and then left
+    -- without flushing: what was reported in between is gone
+    if o.repro ≥ 3 then
+      s!"fail:signal-loss:the process ran into its interrupt timeout; {o.servedExit} requests were answered 500 ms before it exited, result file has {o.lines} lines (exit {o.exit})"
     else "skip:inconclusive"
   else "ok"
 
